@@ -59,7 +59,7 @@ func isInt(t types.Type) bool {
 }
 
 func runC06(a *Analyzer, r *Results) {
-	pr := props("C06", "C01", "C02", "C03", "C07", "C10")
+	pr := props("C06", "C01", "C02", "C03", "C04", "C07", "C10")
 	pkgPath := modPath + "/services/quorum"
 	if a.P.ByPath[pkgPath] == nil {
 		broken("unresolved anchor: package services/quorum")
@@ -689,7 +689,7 @@ func runC19formula(a *Analyzer, r *Results) {
 			return v.Key() == want1.Key() || v.Key() == want2.Key()
 		}
 		ok2 := leafOK(val)
-		r.Check("T1.value", props("C19", "C05"), "CalcTimeout returns minTimeout * 2^view, or a positive constant on the saturated path", shortName(fn), a.P.InstrPos(ret), ok2, why, "N")
+		r.Check("T1.value", props("C19", "C05", "C18", "C12"), "CalcTimeout returns minTimeout * 2^view, or a positive constant on the saturated path", shortName(fn), a.P.InstrPos(ret), ok2, why, "N")
 	}
 	// the exponent base is the constant 2 and nobody writes it
 	okBase := true
